@@ -37,6 +37,9 @@ type Case struct {
 	Config gen.Config      `json:"config"`
 	// faults: DropConn selects a lost connection instead of a statement error
 	DropConn bool `json:"drop_conn,omitempty"`
+	// InRows: a query hit by the fault runs and fails while its rows are streamed (after AfterRows rows)
+	InRows    bool `json:"in_rows,omitempty"`
+	AfterRows int  `json:"after_rows,omitempty"`
 	// repeat: number of deliveries
 	Deliveries int `json:"deliveries,omitempty"`
 	// early: where the rollback is delivered relative to phase one
@@ -161,7 +164,7 @@ func runFaults(c Case) *pt.Failure {
 		undoBefore := undoSnapshot(xid)
 		mark := jmark()
 		count := 0
-		f := &memsql.Fault{DropConn: c.DropConn, Match: func(e *memsql.Entry) bool {
+		f := &memsql.Fault{DropConn: c.DropConn, InRows: c.InRows, AfterRows: c.AfterRows, Match: func(e *memsql.Entry) bool {
 			if e.Seq <= mark || e.Kind == "CONNECT" || e.Kind == "CLOSE" || strings.Contains(e.Upper(), "INFORMATION_SCHEMA") {
 				return false
 			}
@@ -181,7 +184,7 @@ func runFaults(c Case) *pt.Failure {
 			return nil
 		}
 		last.reached++
-		where := fmt.Sprintf("fault at statement %d of the rollback transaction (drop connection: %v)\n%s", k, c.DropConn, atenv.Tail(env.Srv.JournalSince(mark), 14))
+		where := fmt.Sprintf("fault at statement %d of the rollback transaction (drop connection: %v, while streaming rows: %v after %d)\n%s", k, c.DropConn, c.InRows, c.AfterRows, atenv.Tail(env.Srv.JournalSince(mark), 14))
 		if resp != nil && st == branch.BranchStatusPhasetwoRollbacked {
 			// the database refused a statement of the rollback; success may only be claimed if the rollback really happened
 			if d := atenv.DiffSnap(d0, env.Srv.Snapshot(atenv.Schema, names...)); d != "" || normalUndoRows(xid) != 0 {
@@ -412,9 +415,9 @@ func record(test string, c Case) {
 	canon := shape(c)
 	switch c.Kind {
 	case "faults":
-		labels = append(labels, fmt.Sprintf("drop-conn:%v", c.DropConn))
+		labels = append(labels, fmt.Sprintf("drop-conn:%v", c.DropConn), fmt.Sprintf("in-rows:%v", c.InRows))
 		ctx.Rec.Label("fault-positions-reached", last.reached)
-		canon += fmt.Sprintf("|faults|%v|%d", c.DropConn, last.reached)
+		canon += fmt.Sprintf("|faults|%v|%v%d|%d", c.DropConn, c.InRows, c.AfterRows, last.reached)
 	case "repeat":
 		labels = append(labels, fmt.Sprintf("deliveries:%d", c.Deliveries))
 		canon += fmt.Sprintf("|repeat|%d", c.Deliveries)
@@ -444,6 +447,9 @@ func TestPropFaultEveryPosition(t *testing.T) {
 	ctx.Check(t, func(rt *rapid.T) {
 		c := drawBase(rt)
 		c.Kind, c.DropConn = "faults", rapid.IntRange(0, 3).Draw(rt, "drop") == 0
+		if !c.DropConn && rapid.IntRange(0, 2).Draw(rt, "inRows") == 0 {
+			c.InRows, c.AfterRows = true, rapid.SampledFrom([]int{0, 0, 1}).Draw(rt, "afterRows")
+		}
 		fl := runCase(c)
 		record("faults", c)
 		ctx.Judge(rt, "faults", fl, c)
